@@ -140,6 +140,10 @@ type uxStepOut struct {
 	Obs  uxObs  `json:"obs"`
 	Note string `json:"note,omitempty"`
 	Dump string `json:"dump,omitempty"`
+	// 1: a step made after the model path had ended (run-out after Stop, see
+	// uxRunPath); the path file has no prediction for it, so it is judged by
+	// Props but not compared for drift
+	Ext int `json:"ext,omitempty"`
 }
 
 type uxPathOut struct {
@@ -933,6 +937,19 @@ func uxRunPath(p *uxPathIn) (out uxPathOut) {
 		out.Steps = append(out.Steps, step)
 		if e.pc == uxHung || e.pc == uxPanic {
 			return out
+		}
+	}
+	if !drifted && e.quit {
+		// Stop was called and the path ends with the batch manager still at a
+		// gate: the environment goes on answering every call successfully (true
+		// filters) until the manager has returned, so that the number of calls
+		// the scan makes after Stop (C17: StopBoundedWork) is observed in full.
+		// The model has at most two such steps; the bound of 64 only ends a
+		// scan that walks on over more heights than any chain used here has.
+		for i := 0; i < 64 && e.atGate(); i++ {
+			a, dump := e.release(uxAct{Res: "ok"})
+			e.collect()
+			out.Steps = append(out.Steps, uxStepOut{Act: a, Obs: e.obs(), Dump: dump, Ext: 1})
 		}
 	}
 	if drifted {
